@@ -351,6 +351,26 @@ def c10a_alloc_sites(prog, res):
             bad = None
             pos = elem_positions(fn)
             pa = enclosing_elem(fn, i, pos)
+            # a size that was computed into a local earlier (new_bytes = base + scale*n): the variables of that
+            # computation must still have the same values at the allocation
+            from cfg import local_defs as _ld10
+            stale = None
+            for v in fn.refs_in(size_n):
+                if v in fn.params:
+                    continue
+                ds = [(d, r) for (d, r) in _ld10(fn, v) if r is not None]
+                if len(ds) == 1:
+                    pdv = enclosing_elem(fn, ds[0][0], pos)
+                    for x in fn.refs_in(ds[0][1]):
+                        if pdv and pa and redefined_between(fn, x, pdv, pa, pos):
+                            stale = (v, x)
+            if stale:
+                res.add(Finding("C10", "C10.a.var-size", fn.name, disc, fn.where(i),
+                                "allocates %s bytes for a %s, a size computed into `%s` before `%s` was changed again: the length "
+                                "stored afterwards no longer matches the bytes allocated, so the sweeper's extent (%d + %s*%d) and the "
+                                "allocation disagree" % (fn.txt(size_n)[:40], row["_name"], fn.vars[stale[0]]["n"], fn.vars[stale[1]]["n"],
+                                                          row["size_base"], lf_field, row["size_scale"]), unit=fn.unit.display))
+                continue
             for (j, rhs, mem) in stores:
                 ls = linform(fn, rhs)
                 diff = lin_sub(lin_sub(lf, (row["size_base"], {})), ls, row["size_scale"])
@@ -508,4 +528,56 @@ def c10c_heap_sizes(prog, res):
                                     "the %d-byte allocation granule: the segment's end and its last free chunk then fall "
                                     "between granules and the heap can no longer be parsed as a tiling of objects and free chunks"
                                     % (fn.name, fn.txt(nd["c"][1])[:60], HEAP_ALIGN), unit=fn.unit.display))
+    return stat
+
+
+def c10d_heap_walk_bounds(prog, res, floor=3):
+    """every walk over the objects of a heap segment - a loop that advances a pointer by the allocated size of the
+    object it points at and runs while `p < end` - takes `end` to be h->data + h->size, the end of the segment:
+    a walker that stops one block early never visits the last object (it is not swept, finalized or has its weak
+    references reset), one that runs further parses memory that is not the heap's"""
+    from cfg import linform, local_defs
+    stat = res.stat("C10.d", "heap walks (sweep, finalize, weak reset, statistics) run up to h->data + h->size exactly", floor=floor)
+    for fn in prog.all_funcs():
+        if not fn.blocks:
+            continue
+        sizes = [i for i, nd in enumerate(fn.nodes) if nd["k"] == "call" and nd.get("o") in
+                 ("sexp_allocated_bytes", "sexp_gc_allocated_bytes")]
+        if not sizes:
+            continue
+        for b in fn.blocks.values():
+            if b.cond is None or b.term not in ("WhileStmt", "ForStmt", "DoStmt"):
+                continue
+            c = fn.strip(b.cond)
+            cn = fn.nodes[c]
+            if cn["k"] != "bin" or cn["o"] not in ("<", "<="):
+                continue
+            l, r = fn.strip(cn["c"][0]), fn.strip(cn["c"][1])
+            if fn.nodes[l]["k"] != "ref" or fn.nodes[r]["k"] != "ref" or "d" not in fn.nodes[r]:
+                continue
+            if "*" not in (fn.type(l) or "") or "*" not in (fn.type(r) or ""):
+                continue
+            defs = [rhs for (_d, rhs) in local_defs(fn, fn.nodes[r]["d"]) if rhs is not None]
+            if not defs:
+                continue
+            stat.sites += 1
+            stat.obligations += 1
+            bad = None
+            for rhs in defs:
+                t = fn.txt(rhs)
+                lf = linform(fn, rhs, subst=False)
+                terms = sorted(lf[1]) if lf else []
+                ok = lf is not None and lf[0] == 0 and len(terms) == 2 and any(x.endswith("->data") for x in terms) \
+                    and any(x.endswith("->size") for x in terms) and all(v == 1 for v in lf[1].values()) and cn["o"] == "<"
+                if not ok:
+                    bad = t
+            if bad is None:
+                stat.discharged += 1
+                stat.sample({"function": fn.name, "bound": fn.txt(defs[0])[:40]})
+            else:
+                res.add(Finding("C10", "C10.d.heap-walk-bound", fn.name, "walk bound", fn.where(c),
+                                "%s walks the objects of a heap segment while p %s %s with that bound set to %s, not to the end of "
+                                "the segment (h->data + h->size): objects in the last block(s) are never visited - not swept, not "
+                                "finalized, their weak references not reset - or the walk parses memory behind the heap"
+                                % (fn.name, cn["o"], fn.txt(r), bad[:60]), unit=fn.unit.display))
     return stat
